@@ -128,9 +128,7 @@ class ElectionProfile:
             self.line = profile.lineNumber
             equal_rank = False
             for rank in ranking:
-                for cid in set(rank):
-                    if cid in profile.withdrawn:
-                        rank.remove(cid)
+                rank[:] = [cid for cid in rank if cid not in profile.withdrawn]
                 if len(rank) > 1:
                     equal_rank = True
             ranking = [rank for rank in ranking if len(rank)]   # strip empty ranks
